@@ -30,7 +30,9 @@ INJECT = ['"} 1\n# TYPE x counter\nx 1', '\n# HELP a b', '\\"} 2', '\\\n"', 'a\\
 def cq_str(s):
     if not s:
         return "(@nil N)"
-    return '(cps (hx "%s"))' % "".join("%06x" % ord(ch) for ch in s)
+    # long literals are cut into pieces (a 30 kB string literal overflows coqc's stack)
+    parts = ['cps (hx "%s")' % "".join("%06x" % ord(ch) for ch in s[i:i + 400]) for i in range(0, len(s), 400)]
+    return "(" + " ++ ".join(parts) + ")"
 
 
 def hx(s):
@@ -100,8 +102,8 @@ class C08(Prop):
     pid = "C08"
     pkg = "hprom"
     binname = "c08"
-    quick_cases = 4000
-    thorough_cases = 120000
+    quick_cases = 3000
+    thorough_cases = 40000
     shard = 100
     rule = ("75% direct cases: the four sanitisers, write_help_line, write_type_line and key_to_parts+write_metric_line on strings over "
             "an adversarial alphabet (quote, backslash, LF, CR, ',', '=', '{', '}', '#', ':', space, NUL, TAB, 'n', digits first, U+0080, "
@@ -114,8 +116,23 @@ class C08(Prop):
     technique = ("Coq proof about a hand-written model of formatting.rs and of render()'s text composition, against an independent strict "
                  "exposition-format reader (Spec.v); differential correspondence on sanitisers, line writers and whole render() outputs, "
                  "and the reader evaluated on every implementation output")
-    level_text = "filled in below"
-    level_note = "filled in below"
+    level_text = ("Theorems (Coq, all strings over Unicode scalar values, all Units, unit suffix on and off, histogram and summary mode, any "
+                  "number of families/series/labels): sanitised metric and label names match the grammar and keep their length; the escape "
+                  "machine's output is a concatenation of escape tokens for every input and every look-behind state, so the reader of an "
+                  "independent strict exposition-format parser (Spec.v) consumes it entirely and takes the next quote as the closing one, and no "
+                  "raw newline occurs; every sample/HELP/TYPE line written by the model is read back with exactly the sanitised label pairs in "
+                  "order plus le/quantile; for every structured rendering satisfying the precondition the whole text parses line by line, has "
+                  "exactly the expected number of HELP/TYPE/sample/blank lines (user data adds none) and satisfies the family rule "
+                  "(C08_family_structure), which the code before commit 9e605eb violated (C08_family_structure_refuted_before_fix). The model is "
+                  "tied to /repo by running the real sanitisers, line writers and PrometheusHandle::render() and the model on the same generated "
+                  "cases each run, and the Spec.v reader is evaluated on every implementation output.")
+    level_note = ("Trusted: Coq kernel; hand-written model (tied by differential runs, not by translation); the transcription of the format grammar in "
+                  "Spec.v, which is stricter than the format (single spaces, no timestamps, no free comments) and does not check that label names "
+                  "within one sample are distinct or differ from le/quantile (C07's precondition); number formatting (Display) is an oracle; the "
+                  "grouping of keys into families and label sets (HashMap/IndexMap in get_recent_metrics) is input data of the rendering model and "
+                  "belongs to C07; summary quantile values are rendered only for empty summaries in the correspondence runs. The decoded label "
+                  "value equals the original only for values without backslashes (C08_escape_faithful_without_backslash); with backslashes the "
+                  "look-behind machine is lossy (a pending backslash before LF is reordered or, before a quote, dropped) but always well-formed.")
     assumptions = ["Display of u64/f64 is an oracle: formatted numbers are case data; the generator uses integer-valued doubles below 2^53 and simple bucket bounds, whose Display form python reproduces exactly",
                    "summary-mode histograms are rendered with no recorded samples (quantile values of the DDSketch are not modelled)",
                    "HashMap iteration order is unspecified: renderings are compared as multisets of families and of sample lines per family"]
@@ -355,7 +372,7 @@ class C08(Prop):
                     for m, (k, v) in enumerate(s["labels"]):
                         for v2 in shorter(v)[:6]:
                             cands.append(withs(dict(s, labels=s["labels"][:m] + [[k, v2]] + s["labels"][m + 1:])))
-        return cands
+        return cands[:80]
 
 
 PROP = C08()
